@@ -44,7 +44,9 @@ META = {
         "constant install or constant-key reset executed on every parse around the render call; restore of a value (or of the "
         "absence of a key) saved from the same place; mutation inside a try whose finally restores a saved copy; data under an "
         "env attribute that Sphinx merges per docname (metadata & co.) keyed by env.docname; env.temp_data; tabled current-"
-        "document env API; settings attribute overwritten from the document's own config on every render or parse; write to a fresh "
+        "document env API; settings attribute overwritten from the document's own config on every render or parse - unless its name is one "
+        "under which the docutils create_myst_config reads a config field back from the settings object (`myst_<field>`: a "
+        "reused settings object would turn one document's file-level value into the next document's global config); write to a fresh "
         "copy / object under construction; function outside the reach of every parse entry. The docutils front end must remove "
         "roles._roles[''] after the render as its sibling docutils.parsers.rst.Parser.parse does. R2: save/restore pairs in "
         "finally blocks - the saved name is read from the restored place before the try (or under the same conditions as the "
@@ -57,7 +59,8 @@ META = {
         "written during a render is stored unconditionally by setup_render, which render() calls first. R6: document-scoped "
         "state is listed. R7: no uuid/random/secrets/time/os.urandom/id() value reaches a node, id or message. R8: a config "
         "field mutated in place is re-created for every MdParserConfig instance by an unconditional normalising validator "
-        "(copy() is shallow). R9: env.myst_config is assigned on every normal path of a handler connected to builder-inited (the "
+        "(copy() is shallow); every return of MdParserConfig.copy is classified (dataclasses.replace / constructor = re-validating, "
+        "copy.copy = shallow: no field is owned, returning self = R1 violation). R9: env.myst_config is assigned on every normal path of a handler connected to builder-inited (the "
         "environment is pickled between builds). R10: a subscript slot that is extended in place somewhere (node['classes'], "
         "node['names'] ...) is never assigned a mutable object owned by the config, a module global or a class. R11: the system "
         "messages returned by docutils' role/directive registry lookup (emitted only the first time a name is looked up in a "
@@ -86,7 +89,7 @@ META = {
         "markdown-it creates a fresh env dict per MarkdownIt.render call; docutils Element constructors copy list-valued keyword arguments",
         "docutils' roles.role()/directives.directive() cache successful lookups process-wide and emit their language-fallback messages only on the first lookup; failed lookups are not cached",
         "Sphinx's OnceFilter (once=True) keys on the message text and lives as long as the application",
-        "MdParserConfig.copy() is dataclasses.replace (shallow) and re-runs the field validators through __post_init__ (both re-verified on every run)",
+        "dataclasses.replace re-runs the field validators through __post_init__ (re-verified on every run); the docutils front end may be driven with one settings object for several documents (Publisher reuse, publish_*(settings=...))",
     ],
 }
 
@@ -1222,6 +1225,36 @@ def _sibling_env_use(ef: Effects, callee: str, call: ast.Call, env_arg: ast.expr
     return True, f"{callee} uses the env only through {rep_}" + (f" ({'; '.join(ENV_API[a[len(pname) + 1 : -2]] for a in apis)})" if apis else "")
 
 
+def _settings_feedback(ef: Effects, s: Site) -> str | None:
+    """The stored settings attribute is one the package reads back as *configuration input* of the next parse."""
+    rd = _settings_config_reader(ef)
+    if rd is None:
+        return None
+    reader, prefix = rd
+    attr = None
+    if s.how == "store":
+        tg = s.node.targets[0] if isinstance(s.node, ast.Assign) else getattr(s.node, "target", None)
+        for t, _ in _flatten(tg) if tg is not None else []:
+            if isinstance(t, ast.Attribute) and t.value is s.container:
+                attr = t.attr
+    elif s.how == "setattr" and isinstance(s.node, ast.Call) and len(s.node.args) > 1:
+        a1 = s.node.args[1]
+        if isinstance(a1, ast.Constant) and isinstance(a1.value, str):
+            attr = a1.value
+        elif isinstance(a1, ast.JoinedStr) and a1.values and isinstance(a1.values[0], ast.Constant) and str(a1.values[0].value).startswith(prefix):
+            attr = prefix + "*"
+    if attr is None or not attr.startswith(prefix):
+        return None
+    fields = _config_field_names(ef.c)
+    if attr != prefix + "*" and attr[len(prefix):] not in fields:
+        return None
+    return (
+        f"`{attr}` is also the name under which {reader.qualname} reads the configuration field `{attr[len(prefix):]}` from the settings object at the start of the next parse: "
+        "with a settings object that is used for more than one document (docutils Publisher / publish_* with settings=...) the file-level value of one document "
+        "(front matter) becomes the global configuration of the next"
+    )
+
+
 def _judge_shared(ef: Effects, s: Site, roots: frozenset) -> tuple[str, str]:
     """('ok'|'assumed'|'violation'|'error', reason) for a write whose object has a shared root."""
     fi = s.fi
@@ -1289,6 +1322,9 @@ def _judge_shared(ef: Effects, s: Site, roots: frozenset) -> tuple[str, str]:
             )
             if reads_settings:
                 return "violation", f"{what}: the stored value is computed from what the settings object already holds; under Sphinx that is what the previously read document left there"
+            fb = _settings_feedback(ef, s)
+            if fb:
+                return "violation", f"{what}: {fb}"
             if _on_every_render(ef, fi, s.node) is True:
                 return "ok", "settings attribute overwritten from the document's own config on every render, before the transforms read it"
             if _on_every_parse(ef, fi, s.node, s.written) is True:
@@ -1352,15 +1388,91 @@ def _judge_shared(ef: Effects, s: Site, roots: frozenset) -> tuple[str, str]:
     return "violation", f"{what}: the write persists in process-global state after this parse and is conditional on document content, so later parses (and rST parsed through eval-rst) behave differently depending on history"
 
 
+def _copy_kinds(corpus: Corpus) -> list[tuple[str, ast.Return]]:
+    """How each return of MdParserConfig.copy builds its result: 'revalidating' (dataclasses.replace / constructor: __post_init__
+    runs the validators), 'shallow' (copy.copy: same field objects, no validation), 'deep', 'self', 'unknown'."""
+    cp = corpus.func("config.main:MdParserConfig.copy")
+    out = []
+    for r in sorted([n for n in walk_local(cp.node, into_lambdas=False) if isinstance(n, ast.Return)], key=lambda n: n.lineno):
+        v = r.value
+        kind = "unknown"
+        if v is None:
+            kind = "unknown"
+        elif isinstance(v, ast.Name) and v.id == "self":
+            kind = "self"
+        elif isinstance(v, ast.Call):
+            d = dotted(v.func) or ""
+            full = cp.module.resolve(d)
+            a0 = unparse(v.args[0]) if v.args else ""
+            if full in ("dataclasses.replace",) or d.endswith(".replace") and a0 == "self" or d == "replace" and a0 == "self":
+                kind = "revalidating"
+            elif d in ("type(self)", "self.__class__", "MdParserConfig", "cls") or (isinstance(v.func, ast.Call) and unparse(v.func) == "type(self)"):
+                kind = "revalidating"
+            elif full in ("copy.copy",) or d == "copy" and a0 == "self":
+                kind = "shallow"
+            elif full in ("copy.deepcopy",) or d == "deepcopy":
+                kind = "deep"
+        out.append((kind, r))
+    return out
+
+
+def _settings_config_reader(ef: Effects) -> tuple[FunctionInfo, str] | None:
+    """The function that builds the docutils configuration by reading ``<prefix><field name>`` for every config field from the
+    settings object, and the prefix: (function, prefix) or None."""
+    def compute():
+        for fi in ef.c.all_functions():
+            if fi.is_lambda or fi.fq not in ef.parse_reach:
+                continue
+            loops = [n for n in walk_local(fi.node, into_lambdas=False) if isinstance(n, ast.For) and isinstance(n.iter, ast.Call) and (dotted(n.iter.func) or "").endswith("get_fields") and isinstance(n.target, ast.Name)]
+            for lp in loops:
+                for c in ast.walk(lp):
+                    if isinstance(c, ast.Call) and dotted(c.func) == "getattr" and len(c.args) >= 2:
+                        key = c.args[1]
+                        if isinstance(key, ast.Name):
+                            _, b = ef.lookup(key.id, fi)
+                            vals = [x for k_, x, p_ in b or [] if k_ == "assign" and x is not None and not p_]
+                            key = vals[0] if len(vals) == 1 else key
+                        if isinstance(key, ast.JoinedStr) and key.values and f"{lp.target.id}.name" in unparse(key):
+                            first = key.values[0]
+                            prefix = None
+                            if isinstance(first, ast.Constant) and isinstance(first.value, str):
+                                prefix = first.value
+                            elif isinstance(first, ast.FormattedValue) and isinstance(first.value, ast.Name) and first.value.id in fi.params:
+                                a = fi.node.args
+                                names = [x.arg for x in a.posonlyargs + a.args]
+                                defaults = dict(zip(reversed(names), reversed(a.defaults)))
+                                dv = defaults.get(first.value.id)
+                                if isinstance(dv, ast.Constant) and isinstance(dv.value, str):
+                                    prefix = dv.value
+                            if prefix:
+                                return fi, prefix
+        return None
+
+    return ef.c.cache("c15-settings-reader", compute)
+
+
+def _config_field_names(corpus: Corpus) -> set[str]:
+    ci = corpus.cls(CONFIG_CLS.replace("myst_parser.", "", 1))
+    return {st.target.id for st in ci.node.body if isinstance(st, ast.AnnAssign) and isinstance(st.target, ast.Name)}
+
+
 @rule("C15.R1")
 def r1_effect_classification(corpus: Corpus, rep: Report, tier: str):
     rep.rule("C15.R1", "every write to a module global, class object, imported object, registry class, shared config or Sphinx env is an idempotent install, a paired restore, docname-keyed, a tabled env API, a fresh copy, or outside parse reach")
     ef = _effects(corpus)
-    # table shape: MdParserConfig.copy really builds a new object
+    # table shape: MdParserConfig.copy really builds a new object (whether the copy also owns its field objects is R8's question)
     cp = corpus.func("config.main:MdParserConfig.copy")
-    rets = [n for n in walk_local(cp.node) if isinstance(n, ast.Return) and n.value is not None]
-    if not (rets and all(isinstance(r.value, ast.Call) and (dotted(r.value.func) or "").endswith("replace") and r.value.args and unparse(r.value.args[0]) == "self" for r in rets)):
-        rep.error("C15.R1", "MdParserConfig.copy no longer returns dataclasses.replace(self, ...): the FRESH classification of `.copy()` is unverified")
+    kinds_ = _copy_kinds(corpus)
+    if not kinds_:
+        rep.error("C15.R1", "MdParserConfig.copy has no return statement")
+    for kind_, r_ in kinds_:
+        kk = f"{cp.fq}|{short(r_, 50)}"
+        if kind_ == "self":
+            rep.violation("C15.R1", kk, cp.module.site(r_), "MdParserConfig.copy() returns the object itself: merge_file_level then writes the file-level values of one document into the global configuration of all documents")
+        elif kind_ == "unknown":
+            rep.error("C15.R1", f"{cp.module.site(r_)}: MdParserConfig.copy returns `{short(r_.value, 40) if r_.value is not None else None}`: cannot tell whether that is a new object")
+        else:
+            rep.ok("C15.R1", kk, cp.module.site(r_), f"a new object ({kind_})")
     seen = set()
     n_sites = 0
     for s in ef.sites():
@@ -2232,6 +2344,10 @@ def r8_field_ownership(corpus: Corpus, rep: Report, tier: str):
                         why = f"{fn.qualname} stores a new object only on some paths (`{short(cfg.stmt_of(c2), 50)}` is conditional): when it is skipped, copy() leaves the copy sharing the object with the global config"
                     else:
                         why = why or f"{fn.qualname} stores `{short(val_, 40)}`, which is not (always) a newly built object"
+        shallow = [r_ for kind_, r_ in _copy_kinds(corpus) if kind_ in ("shallow", "self")]
+        if shallow:
+            owned = None
+            why = f"MdParserConfig.copy() has a path (`{short(shallow[0], 40)}`) that copies the object without running the validators, so the copy holds the very same {field} object as the configuration it was copied from"
         if owned is not None:
             rep.ok("C15.R8", k, s.site, f"{owned.qualname} unconditionally stores a new object on the instance, so every copy() owns its {field}")
         else:
@@ -2874,11 +2990,8 @@ def mutants(corpus: Corpus):
         add("c15-config-handler-not-on-builder-inited", "C15.R9", f, splice(sm.src, st.value.args[0], "'env-before-read-docs'"), "myst_config")
     # R1: the settings object shared by all documents of a Sphinx build
     f = base.func("DocutilsRenderer._render_finalise")
-    st = find_stmt(f, lambda n: isinstance(n, ast.Assign) and unparse(n.targets[0]).endswith("settings.myst_footnote_sort"))
-    if st is not None:
-        ind = indent_of(f, st)
-        add("c15-settings-written-only-when-unset", "C15.R1", f, splice(base.src, st, 'if not getattr(self.document.settings, "myst_footnote_sort", None):\n' + ind + "    " + _seg(f, st)), "myst_footnote_sort")
-        add("c15-settings-value-prefers-previous", "C15.R1", f, splice(base.src, st.value, 'getattr(self.document.settings, "myst_footnote_sort", None) or ' + _seg(f, st.value)), "myst_footnote_sort")
+    add("c15-settings-written-only-when-unset", "C15.R1", f, _prepend_stmt(f, 'if not getattr(self.document.settings, "myst_last_footnote_mode", None):\n            self.document.settings.myst_last_footnote_mode = self.md_config.footnote_sort'), "myst_last_footnote_mode")
+    add("c15-settings-value-prefers-previous", "C15.R1", f, _prepend_stmt(f, 'self.document.settings.myst_last_footnote_mode = getattr(self.document.settings, "myst_last_footnote_mode", None) or self.md_config.footnote_sort'), "myst_last_footnote_mode")
     # R1: ad-hoc env mapping (keyed by docname, but not one Sphinx merges from parallel workers)
     st = find_stmt(f, lambda n: isinstance(n, ast.Assign) and "myst_slugs" in unparse(n.targets[0]) and "metadata" in unparse(n.targets[0]))
     if st is not None:
@@ -2987,4 +3100,14 @@ def mutants(corpus: Corpus):
     c = find_node(f, lambda n: isinstance(n, ast.Call) and unparse(n.func) == "self.log_warning" and any("XREF_AMBIGUOUS" in unparse(a) for a in n.args))
     if c is not None:
         add("c15-ambiguous-reference-warned-once", "C15.R12", f, splice(rr.src, c.args[-1], _seg(f, c.args[-1]) + ", once=True"), "resolve_myst_ref_any")
+    # --- round-6 classes ---------------------------------------------------------------------------------
+    cm = corpus.mod("config.main")
+    f = cm.func("MdParserConfig.copy")
+    if "import dataclasses as dc\n" in cm.src:
+        add("c15-config-copy-shallow-without-kwargs", "C15.R8", f, _prepend_stmt(f, "if not kwargs:\n            return copy.copy(self)").replace("import dataclasses as dc\n", "import copy\nimport dataclasses as dc\n", 1), "enable_extensions")
+    else:
+        out.append(("c15-config-copy-shallow-without-kwargs", "import dataclasses as dc not found in config/main.py"))
+    add("c15-config-copy-returns-self-without-kwargs", "C15.R1", f, _prepend_stmt(f, "if not kwargs:\n            return self"), "MdParserConfig.copy")
+    f = base.func("DocutilsRenderer._render_finalise")
+    add("c15-config-field-name-stored-on-settings", "C15.R1", f, _prepend_stmt(f, "self.document.settings.myst_heading_anchors = self.md_config.heading_anchors"), "myst_heading_anchors")
     return out
